@@ -1836,7 +1836,11 @@ class Rule(metaclass=LogicalType):
             if not cls.__abstract__ and type(value) != cls.__origin__:
                 # for abstract types (like Sequence / Iterable)
                 # we just give an instance that satisfy those abstract methods (like a list instance)
-                value = cls.__origin__(value)
+                try:
+                    value = cls.__origin__(value)
+                except Exception as e:
+                    # e.g. a preserved (unconverted) element that is unhashable, collected into a set
+                    context.handle_error(exc.ParseError(origin_exc=e), force_raise=True)
 
         if not options.ignore_constraints:
             # if options ignore constraints, we will just do type transform
